@@ -65,6 +65,15 @@ func fetchProfiles(s *source, o *plugin.Options) (*profile.Profile, error) {
 			pbase.SetLabel("pprof::base", []string{"true"})
 		}
 		if s.Normalize {
+			// Normalize requires identical sample types: align their order
+			// and units first, as the merge below would do anyway.
+			both := []*profile.Profile{p, pbase}
+			if err := profile.CompatibilizeSampleTypes(both); err != nil {
+				return nil, err
+			}
+			if err := measurement.ScaleProfiles(both); err != nil {
+				return nil, err
+			}
 			err := p.Normalize(pbase)
 			if err != nil {
 				return nil, err
